@@ -39,6 +39,9 @@ func (cs *Case) Spec() *world.Spec {
 // EntrySpec builds a world spec from a catalogue entry and the files of its first path.
 func EntrySpec(e *gen.Entry, files []world.FileSpec) *world.Spec {
 	sp := &world.Spec{SchemaID: e.ID, HookItems: e.Hooks}
+	if len(e.Companion) > 0 {
+		files = append(append([]world.FileSpec{}, files...), e.Companion...)
+	}
 	sp.Paths = append(sp.Paths, world.PathSpec{Path: "/p0", Schema: e.Mk, Files: files, Funcs: gen.Functions})
 	sp.Paths = append(sp.Paths, e.Extra...)
 	return sp
@@ -48,6 +51,9 @@ func EntrySpec(e *gen.Entry, files []world.FileSpec) *world.Spec {
 func (cs *Case) Files() []report.FileSpec {
 	out := []report.FileSpec{{Path: "/p0", Name: cs.File, Text: cs.Text}}
 	for _, m := range cs.More {
+		out = append(out, report.FileSpec{Path: "/p0", Name: m.Name, Text: m.Text})
+	}
+	for _, m := range cs.Entry.Companion {
 		out = append(out, report.FileSpec{Path: "/p0", Name: m.Name, Text: m.Text})
 	}
 	return out
